@@ -1538,3 +1538,21 @@ func nilFacts(fs map[string]bool, prefix string) (nonNil, isNil bool) {
 	}
 	return
 }
+
+// closureFn: the function a func-typed value denotes when it is a function literal or a named
+// function (possibly converted / wrapped in MakeClosure); nil otherwise.
+func closureFn(v ssa.Value) *ssa.Function {
+	switch x := v.(type) {
+	case *ssa.MakeClosure:
+		if fn, ok := x.Fn.(*ssa.Function); ok {
+			return fn
+		}
+	case *ssa.Function:
+		return x
+	case *ssa.ChangeType:
+		return closureFn(x.X)
+	case *ssa.MakeInterface:
+		return closureFn(x.X)
+	}
+	return nil
+}
